@@ -184,6 +184,35 @@ def run(chk, repo):
     chk.decide(len(od) == 1 and unparse(od[0].value) == "kws.pop('ola', overlap_add)", "C09.routing", Ww,
                short(od[0]) if od else "ola missing", why="default overlap-add strategy", node=wr)
 
+    chk.rule("C09.merge", "keyword precedence: in the partial/decorator style (func is None) newly given keywords "
+                          "override the stored ones; in the wrapper call-time keywords override both")
+    sf = repo.strategy(LA, "stft", "rfft").node
+    arm = [s_ for s_ in docstring_free(sf.body) if isinstance(s_, ast.If) and unparse(s_.test) == "func is None"]
+    chk.require(len(arm) == 1, "stft: 'if func is None' arm not found")
+    lam = [n for n in ast.walk(arm[0]) if isinstance(n, ast.Lambda) and n.args.kwarg is not None
+           and any(isinstance(c, ast.Call) and unparse(c.func) == "stft" for c in ast.walk(n.body))]
+    ok = False
+    detail = "?"
+    if len(lam) == 1:
+        new_kw = lam[0].args.kwarg.arg
+        call = [c for c in ast.walk(lam[0].body) if isinstance(c, ast.Call) and unparse(c.func) == "stft"][0]
+        star = [k.value for k in call.keywords if k.arg is None]
+        detail = short(call)
+        if len(star) == 1:
+            m = star[0]
+            if isinstance(m, ast.Call) and unparse(m.func) == "mix_dict" and [unparse(a) for a in m.args] == ["kwparams", new_kw]:
+                md = [n for n in ast.walk(arm[0]) if isinstance(n, ast.Assign) and unparse(n.targets[0]) == "mix_dict"]
+                ok = len(md) == 1 and unparse(md[0].value) == "lambda *dicts: dict(cfi((iteritems(d) for d in dicts)))"
+            elif isinstance(m, ast.Call) and unparse(m.func) == "dict" and len(m.args) == 1 and unparse(m.args[0]) == "kwparams" \
+                    and [unparse(k.value) for k in m.keywords if k.arg is None] == [new_kw]:
+                ok = True           # dict(kwparams, **new_kws): the later (new) keywords win
+    chk.decide(ok, "C09.merge", W("stft[rfft]"), "partial style merges stored then new keywords: " + detail,
+               why="a keyword given again in the partial/decorator style (wnd, hop, ola_*) must replace the stored one; "
+                   "here the stored value wins or the merge is not recognised as 'stored first, new last'", node=arm[0])
+    kw0 = [unparse(s_) for s_ in wb[:2]]
+    chk.decide(kw0 == ["kws = kwparams.copy()", "kws.update(kwargs)"], "C09.merge", Ww, " ; ".join(kw0),
+               why="call-time keywords must override the stored ones", node=wr)
+
     bg = _resolve(repo, LA, "stft[rfft].wrapper.blk_gen")
     Wb = W("stft[rfft].wrapper.blk_gen")
     bb = docstring_free(bg.body)
